@@ -2,12 +2,15 @@
 from __future__ import annotations
 
 import random
+import re
 from typing import Any
 
 from ..engine import monitors, suite
-from ..runner import Divergence, Driver, Env, Outcome, diff_streams
+from ..runner import Divergence, Driver, Env, Outcome, Violation, diff_streams
 
 THEOREMS = ["C08_owner_is_handler", "C08_never_handler_of_handler", "C08_scoped_owner", "C08_wildcard_otherwise",
+            "C08_layout_accepted_iff_no_errors", "C08_layout_covering_handler_rejected", "C08_layout_scoped_over_wildcard_rejected",
+            "C08_layout_covering_handler_reported", "C08_accepted_layout_handler_steps_unowned",
             "C08_route", "C08_fail", "C08_lineage_budget", "C08_count_raised_by_one", "C08_other_counts_kept", "C08_init",
             "C08_init_resumed", "C08_lineage_budget_waiters", "C08_wait_suspend_records_attempt", "C08_wait_replay_keeps_budget",
             "C08_wait_replay_lands", "C08_wait_replay_keeps_budget_resolve", "C08_wait_replay_keeps_budget_timeout",
@@ -19,7 +22,9 @@ THEOREMS = ["C08_owner_is_handler", "C08_never_handler_of_handler", "C08_scoped_
 LEAN_TARGETS = ["WfProps.C08"]
 EXPLANATION = (
     "Lean: (1) handler table model: scoped owner first, else wildcard, never for a handler step, owner is a declared "
-    "handler; (2) reducer: exhausted failure with owner and budget left => exactly one StepFailedEvent to the owner "
+    "handler; which layouts are accepted: `errors` models the messages of validate_catch_error_handlers one by one (wildcard count, then per claim "
+    "unknown / covers a handler step / claimed twice), accepted <=> no message and budgets >= 1, any layout in which a handler lists a handler step "
+    "(scoped, the wildcard, itself) is rejected with that message, accepted layouts leave every handler step unowned; (2) reducer: exhausted failure with owner and budget left => exactly one StepFailedEvent to the owner "
     "with count+1 (other counts kept), state unchanged; no owner or budget spent => WorkflowFailedEvent + failure with "
     "the original exception; (3) runner LTS invariant for every schedule, fresh and resumed runs: no attempt, waiter, tick "
     "or timer ever carries a recovery count above a handler's max_recoveries; (4) a suspension in wait_for_event keeps "
@@ -29,7 +34,10 @@ EXPLANATION = (
     "the counts of its in-progress entry, so the budget invariant holds for schedules with step-side sends with no assumption on "
     "them, and an item re-dispatched by a handler whose budget is spent fails the run (sending it without counts would re-enter "
     "the handler: refuted alternative with witness). Tie: table model vs real _collect_catch_error_handlers on random "
-    "handler layouts (incl. invalid ones), reducer/runner correspondence. Search: every exhausted failure on real runs "
+    "handler layouts (incl. invalid ones) and the classified messages of validate_catch_error_handlers on the same layouts, reducer/runner "
+    "correspondence. Search: the handler LAYOUT is an input (scoped handler listing the wildcard handler / a scoped handler / itself, mutual, chains, "
+    "two wildcards, overlapping scopes, unknown names; handlers that raise): from the layout alone, either rejected or no handler step has an owner, "
+    "every other step has the owner the layout gives it, and no handler is ever entered with the failure of a handler step; every exhausted failure on real runs "
     "is checked against the routing rule recomputed from the static spec; handler entries per lineage path counted from the trace "
     "(edges: returned events AND events sent with ctx.send_event), the counts on every sent tick and at every exhausted failure "
     "against that count; counts in every state. The "
@@ -42,16 +50,35 @@ ASSUMPTIONS = suite.ENGINE_ASSUMPTIONS + [
 ]
 
 
+_MSG_RX = [
+    (re.compile(r"^Only one wildcard @catch_error handler is allowed per workflow, found (\d+): "), lambda m: f"W{m.group(1)}"),
+    (re.compile(r"^@catch_error handler 's(\d+)' lists unknown step 's(\d+)' in for_steps\.$"), lambda m: f"U{int(m.group(1))}:{int(m.group(2))}"),
+    (re.compile(r"^@catch_error handler 's(\d+)' cannot cover another handler step 's(\d+)'\.$"), lambda m: f"C{int(m.group(1))}:{int(m.group(2))}"),
+    (re.compile(r"^Step 's(\d+)' is claimed by two @catch_error handlers: 's(\d+)' and 's(\d+)'\.$"),
+     lambda m: f"D{int(m.group(1))}:{int(m.group(2))}:{int(m.group(3))}"),
+]
+
+
+def _classify_msg(msg: str) -> str:
+    for rx, f in _MSG_RX:
+        m = rx.match(msg)
+        if m:
+            return f(m)
+    return "?" + msg.replace(" ", "_")[:80]
+
+
 def _table_corr(env: Env, out: Outcome, n: int) -> None:
     from workflows.decorators import StepConfig
     from workflows.errors import WorkflowValidationError
     from workflows.events import StepFailedEvent
-    from workflows.representation.validate import _collect_catch_error_handlers
+    from workflows.decorators import CatchErrorHandler
+    from workflows.representation.validate import _collect_catch_error_handlers, validate_catch_error_handlers
 
     from ..engine import evtypes as ET
 
     rng = random.Random(env.rng.randrange(1 << 30))
     ops, exp = [], []
+    flagged = False
     for _ in range(n):
         k = rng.randint(1, 6)
         ids = rng.sample(range(0, 20), k)
@@ -82,14 +109,36 @@ def _table_corr(env: Env, out: Outcome, n: int) -> None:
                 sc = StepConfig(accepted_events=[ET.T5], event_name="ev", return_types=[], context_parameter=None,
                                 num_workers=1, retry_policy=None, resources=[])
             steps[name] = sc
+        err = ""
         try:
             _handlers, hfs = _collect_catch_error_handlers(steps)
             res = " ".join(f"{i}:{int(hfs[f's{i:02d}'][1:]) if f's{i:02d}' in hfs else '_'}" for i in order)
-        except WorkflowValidationError:
+        except WorkflowValidationError as ex:
             res = "invalid"
+            hfs = None
+            err = str(ex)
+        # (S) the table judged from the layout alone (documented rules; no model, no implementation state besides the table)
+        lay_h = [{"name": f"s{i:02d}", "for_steps": None if fs is None else [f"s{t:02d}" for t in fs], "max_rec": mr} for i, fs, mr in decls]
+        lay_names = [f"s{i:02d}" for i in order]
+        rules = monitors.c08_layout_rules(lay_names, lay_h)
+        out.count("layout:" + ("accepted" if hfs is not None else "rejected") + ":" + ("+".join(sorted({r.split(":")[0] for r in rules["reject"]})) or ("unspecified" if rules["unspecified"] else "no_rule_broken")))
+        if not flagged:
+            for sig, what in monitors.c08_table_check(lay_names, lay_h, hfs is not None, hfs, error=err):
+                out.violations.append(Violation(sig, "_collect_catch_error_handlers on a generated layout: " + what,
+                                                {"spec": layout_to_spec(lay_names, lay_h, hfs), "actions": None, "layout_op": f"{order} {decls}"}))
+                flagged = True
+                break
         dtoks = " ".join(f"{i} {'_' if fs is None else str(len(fs)) + (' ' if fs else '') + ' '.join(map(str, fs))} {mr}" for i, fs, mr in decls)
         ops.append(f"H {len(order)} {' '.join(map(str, order))} {len(decls)} {dtoks}".replace("  ", " ").strip())
         exp.append(res)
+        # which layouts are rejected and why: the messages of validate_catch_error_handlers itself, classified, in order
+        msgs = validate_catch_error_handlers(
+            [CatchErrorHandler(step_name=f"s{i:02d}", for_steps=None if fs is None else [f"s{t:02d}" for t in fs], max_recoveries=max(1, mr))
+             for i, fs, mr in decls], set(lay_names))
+        ops.append("E" + ops[-1][1:])
+        exp.append(" ".join(_classify_msg(m) for m in msgs) or "none")
+        if msgs:
+            out.count("table:messages:" + "+".join(sorted({_classify_msg(m)[0] for m in msgs})))
         out.evaluations += 1
         out.count("table:" + ("invalid" if res == "invalid" else "valid"))
         if res != "invalid" and decls:
@@ -106,21 +155,74 @@ def _table_corr(env: Env, out: Outcome, n: int) -> None:
         out.divergences.append(d)
 
 
-def _with_handlers(spec: dict, rng) -> dict:
-    return spec
+def layout_to_spec(names: list[str], handlers: list[dict], table: dict | None) -> dict:
+    """a runnable scripted workflow with exactly this @catch_error layout: every ordinary step fails at once, every handler
+    raises; the start step is an ordinary step whose owner (per the observed table) is a handler step that has an owner
+    itself, when there is one -- so that the replay shows the failure of a handler step at run time too"""
+    hn = {h["name"] for h in handlers}
+    ords = [n for n in names if n not in hn]
+    table = table or {}
+    extra = []
+    if not ords:
+        extra = ["s30"]  # a workflow needs a start step; the name is outside every generated for_steps
+        ords = extra
+    start = next((o for o in ords if table.get(o) in hn and table.get(table.get(o)) is not None), ords[0])
+    steps: list[dict[str, Any]] = []
+    for n in names + extra:
+        if n in hn:
+            h = next(x for x in handlers if x["name"] == n)
+            steps.append({"name": n, "accepts": [4], "role": "handler", "for_steps": h["for_steps"], "max_rec": max(1, int(h.get("max_rec", 1))),
+                          "script": [["fail_always", 3]]})
+        elif n == start:
+            steps.append({"name": n, "accepts": [0], "nw": 1, "retry": None,
+                          "script": ([["send", 5, None, None]] if len(ords) > 1 else []) + [["fail_always", 7], ["ret", "none"]]})
+        else:
+            steps.append({"name": n, "accepts": [5], "nw": 1, "retry": None, "script": [["gate"], ["fail_always", 8], ["ret", "none"]]})
+    return {"steps": steps, "externals": [], "layout_shape": "table"}
+
+
+LAYOUT_MONITORS = [monitors.mon_c08_layout_strict, monitors.mon_c08]
+GEN_MONITORS = [monitors.mon_c08_layout, monitors.mon_c08]  # families whose graphs may be rejected for other reasons: not strict
+
+
+def _layout_cases(env: Env, out: Outcome) -> None:
+    """hand-picked @catch_error layouts (corpus entries of family "handler_layout") and the replayed case, before anything
+    generated: table and run judged from the layout alone; accepted ones also go through the runner correspondence"""
+    from ..engine import live
+
+    jobs: list[tuple[dict, int, Any]] = []
+    case = (env.replay or {}).get("payload", {}).get("case") if env.replay is not None else None
+    if isinstance(case, dict) and "spec" in case and "layout_shape" in case["spec"]:
+        jobs.append((case["spec"], 0, case.get("actions")))
+    for item in suite.load_corpus("C08"):
+        if item.get("family") == "handler_layout":
+            jobs.append((item["spec"], item.get("seed", 0), item.get("actions")))
+    traces = []
+    for spec, seed, actions in jobs:
+        tr = live.run_spec(spec, seed=seed, replay_actions=actions)
+        traces.append(tr)
+        out.evaluations += 1
+        out.count("layout_case:" + str(spec.get("layout_shape")) + ":" + ("rejected" if tr.outcome[0] == "invalid" else "accepted:" + tr.outcome[0]))
+        for m in LAYOUT_MONITORS:
+            out.violations += m(tr)
+    suite.runner_corr(out, traces, label="engine-runner-layout-cases")
 
 
 def run(env: Env) -> Outcome:
     out = Outcome()
     out.rule = ("random handler layouts (valid and invalid) for the table model; direct reducer pairs; live retry/handler-heavy scripted workflows; "
                 "non-trivial = valid layout with handlers / more than 2 ticks; distinct by op line / (spec, schedule)")
+    _layout_cases(env, out)
     _table_corr(env, out, env.budget(2000, 40000))
     suite.direct_corr(env, out, env.budget(2500, 50000))
-    suite.live_runs(env, out, env.budget(150, 3000), [monitors.mon_c08], extra_specs=suite.load_corpus("C08"))
-    suite.live_runs(env, out, env.budget(350, 7000), [monitors.mon_c08], gen_kwargs={"family": "retry"})
+    suite.live_runs(env, out, env.budget(150, 3000), GEN_MONITORS, extra_specs=[c for c in suite.load_corpus("C08") if c.get("family") != "handler_layout"])
+    suite.live_runs(env, out, env.budget(350, 7000), GEN_MONITORS, gen_kwargs={"family": "retry"})
     # lineages that pass through a step suspended in wait_for_event between two entries of their handler
-    suite.live_runs(env, out, env.budget(120, 2400), [monitors.mon_c08], gen_kwargs={"family": "wait_retry"})
+    suite.live_runs(env, out, env.budget(120, 2400), GEN_MONITORS, gen_kwargs={"family": "wait_retry"})
     # lineages that continue through ctx.send_event (from the handler itself, from a relay step downstream of it, from the
     # failing step before it fails) and fail again into the same handler
-    suite.live_runs(env, out, env.budget(120, 1600), [monitors.mon_c08], gen_kwargs={"family": "handler_send"})
+    suite.live_runs(env, out, env.budget(120, 1600), GEN_MONITORS, gen_kwargs={"family": "handler_send"})
+    # the handler LAYOUT as the input: what a user can write (scoped handler listing the wildcard handler / another scoped
+    # handler / itself, two wildcards, overlapping scopes, unknown names, chains), handlers that raise themselves
+    suite.live_runs(env, out, env.budget(250, 5000), LAYOUT_MONITORS, gen_kwargs={"family": "handler_layout"})
     return out
